@@ -502,7 +502,20 @@ def run(sc, choices=None):
                 tmo = int(st.get("timeout", S))
                 if dt > tmo + S // 16:  # slack: scheduling latency of the timed wait
                     delivered = [e for e in w.k.log[log0:] if e[3] == "deliver" and e[4] == sock.fd and e[5] > 0]
-                    rctx = "peer_keeps_sending" if delivered else "peer_silent" 
+                    # the known overrun (KF-C08-1) has a shape: t is applied to every socket read, so every arriving byte
+                    # restarts the wait, but once t has passed close() gives up at the first complete frame or the
+                    # first read that times out - no later than t after the last byte that arrived within the first t.
+                    # A frame trickled byte by byte has no such bound.  Anything beyond that shape is a different failure.
+                    within = [e[1] for e in delivered if e[1] <= t0 + tmo]
+                    D = (max(within) - t0) if within else 0
+                    if not delivered:
+                        rctx = "peer_silent"
+                    elif reaction == "trickle":
+                        rctx = "peer_trickles"
+                    elif dt <= D + tmo + S // 16:
+                        rctx = "peer_keeps_sending"
+                    else:
+                        rctx = "peer_keeps_sending/beyond_one_more_read"
                     res.violate("close_exceeds_timeout", rctx,
                                 f"close(timeout={tmo / S}) took {dt / S} virtual s; peer reaction {reaction}")
                     break
